@@ -60,7 +60,8 @@ def faults(game):
             yield "R1-length", f"{field} insert {i}", "", i > 0, g
     # R2 negative reward
     for s in range(n):
-        for val in (-1, -1e-9, float("-inf"), -0.5):
+        # ... from the smallest to the largest there is: a subnormal, an integer no double can hold
+        for val in (-1, -1e-9, float("-inf"), -0.5, -5e-324, -10 ** 25, -2 ** 1024, -10 ** 400, -1e308):
             g = fresh()
             g["rewards"][s] = val
             yield "R2-negative-reward", f"state {s}", repr(val), s > 0 or val == -1e-9, g
